@@ -184,13 +184,14 @@ func nameOf(a netip.AddrPort) string {
 
 type replyInfo struct {
 	fail     bool
-	interval int64
+	interval int64 // the interval a successful reply announces, or the 'retry in' of a failure reason (seconds)
 	peers    []string
 }
 
 var replies = map[string]replyInfo{
 	"ok30": {false, 30, []string{"a", "b"}}, "ok3600": {false, 3600, []string{"c"}}, "okneg": {false, -5, []string{"d"}},
-	"okodd": {false, 1800, nil}, "okp6odd": {false, 1800, []string{"a"}}, "fail": {true, 0, nil}, "malformed": {true, 0, nil}, "reason3": {true, 0, nil}, "never": {true, 0, nil},
+	"okodd": {false, 1800, nil}, "okp6odd": {false, 1800, []string{"a"}}, "fail": {true, 0, nil}, "malformed": {true, 0, nil}, "reason3": {true, 180, nil}, "never": {true, 8640000, nil},
+	"reason30": {true, 1800, nil},
 }
 
 func compact4(names ...string) string {
@@ -229,6 +230,8 @@ func httpBody(cls string) (int, string) {
 		return 200, "d14:failure reason9:go away..8:retry in1:3e"
 	case "never":
 		return 200, "d14:failure reason9:go away..8:retry in5:nevere"
+	case "reason30":
+		return 200, "d14:failure reason9:go away..8:retry in2:30e"
 	}
 	return 500, ""
 }
@@ -503,10 +506,8 @@ func runLifecycle(sc *Scenario, out *Out) {
 			} else {
 				res = "ok"
 			}
-			lastAnnounced = 0
-			if !ri.fail {
-				lastAnnounced = ri.interval
-			}
+			// what the tracker announced in this reply: an interval, or - with a failure reason - 'retry in'
+			lastAnnounced = ri.interval
 			if s := tracker.VerifState(tr); s.Locked {
 				viol("stuck-busy", "the tracker is left in the busy state after the announce returned ("+st.A.R+")")
 			}
@@ -532,8 +533,13 @@ func runLifecycle(sc *Scenario, out *Out) {
 			out.Nonconf = append(out.Nonconf, fmt.Sprintf("step %d (%s): result %s, specification %s", stepNo, st.A.A, res, exp.Res))
 		}
 		out.StepsDone = stepNo
-		if len(out.Nonconf) > 0 || len(out.Violations) > 0 {
+		if len(out.Violations) > 0 {
 			break
+		}
+		// a difference with the specification's state is reported once; the run goes on with the real tracker, so
+		// that what the property itself forbids (a contact too early, a tracker left busy) is still observed
+		if len(out.Nonconf) > 1 {
+			out.Nonconf = out.Nonconf[:1]
 		}
 	}
 	if pending != nil {
